@@ -900,6 +900,49 @@ def state_lifetime(rep, ex: Explorer):
     rep.floor("operator classes audited for state lifetime", n, 7)
 
 
+def init_preserves_state(rep, ex: Explorer, only_cls=None):
+    """STATE.init-preserves: the manager constructs a new operator object for every call on the state that preprocessing
+    filled; constructing it must leave every slot that is already present in the state as it is (initialising a
+    missing slot is fine)."""
+    prog = ex.prog
+    n = 0
+    for cls in operator_classes(prog):
+        if only_cls and cls != only_cls:
+            continue
+        if prog.lookup_method(cls, "__init__") is None:
+            continue
+        qual = prog.lookup_method(cls, "__init__").qualname
+        site = fn_label(prog, qual)
+        slots = PREPROC_SLOTS + ("preprocessing_done", "preprocessing_timed_out", "preprocessing_time", "weakly", "pool")
+
+        def setup(I, cls=cls):
+            bb = make_belief_base(I)
+            extra = {k: Sym(("preprocessed", k)) for k in slots if k not in ("belief_base", "weakly")}
+            extra["preprocessing_done"] = Const(True)
+            es = make_epistemic_state(I, bb, "x", extra=extra)
+            return [I.alloc(HObj(cls, {})), es], {}
+
+        paths = ex.run(qual, setup, summaries=SUMMARIES, key=f"init-{cls}")
+        for p in paths:
+            n += 1
+            state_oid = None
+            for oid, o in p.state.heap.items():
+                if hasattr(o, "entries") and "belief_base" in getattr(o, "entries", {}) and "smt_solver" in o.entries:
+                    state_oid = oid
+            bad = []
+            for ev, Q in iter_events(p.events):
+                if ev.kind == "dict.set" and isinstance(ev.obj, Ref) and ev.obj.oid == state_oid and isinstance(ev.key, Const) and ev.key.value in slots:
+                    bad.append((ev.key.value, ev.node.lineno))
+            label = f"{cls.rsplit('.', 1)[1]}.__init__"
+            if bad:
+                for k, ln in bad:
+                    rep.violation("STATE.init-preserves", f"{site}:{ln}", f"{label}: slot {k}", "constructing the operator on a preprocessed state leaves the slots that are present untouched",
+                                  extracted=f"state[{k!r}] is overwritten by the constructor although it is present", required="only missing slots are initialised", function=site)
+            else:
+                rep.ok("STATE.init-preserves", site, f"{label}: preprocessed state", "the constructor leaves the slots of a preprocessed state untouched")
+    rep.floor("operator constructors audited", n, 1 if only_cls else 7)
+
+
 def solver_per_query(rep, site, paths):
     """STATE.solver-per-query: a solver / optimizer / WCNF object built while a query is answered is not kept on the
     operator object or in the epistemic state: an exceptional exit (expired budget, `unknown`) between push and pop would
